@@ -79,6 +79,12 @@ func genLoop(r *run.Rand, big bool) *pipe.Workload {
 		w.Inputs = append(w.Inputs, pipe.Input{Name: fmt.Sprintf("f%d", i), Data: data})
 	}
 	w.Cfg = pipe.GenConfig(r, false)
+	if r.Intn(3) == 0 {
+		// a matcher whose instances keep state of their own (dissect carves its results out of a per-instance pool): every
+		// worker must have its own instance. Class U lines match here too and end with an empty key.
+		w.Matcher = pipe.MatcherSpec{Kind: "dissect", Pattern: "%{f}:%{n}:%{c}:%{k}"}
+		w.Extract = `{if {and {neq {3} E} {neq {3} U}} {4}}`
+	}
 	return w
 }
 
@@ -584,7 +590,12 @@ func cliCase(c *run.Ctx, cs Case) {
 	}
 	command := cliCommands[cs.Index%len(cliCommands)]
 	args := []string{"--nocolor"}
-	args = append(args, command[0], "-m", pipe.StructuredRegex)
+	if w.Matcher.Kind == "dissect" {
+		args = append(args, command[0], "-d", w.Matcher.Pattern)
+		c.Count("cli_runs_with_dissect_matcher", 1)
+	} else {
+		args = append(args, command[0], "-m", pipe.StructuredRegex)
+	}
 	args = append(args, command[1:]...)
 	readers, workers, batch := 1+r.Intn(8), 1+r.Intn(16), 1+r.Intn(50)
 	args = append(args, "-i", "{eq {3} I}", "-i", "{eq {3} J}", "--readers", strconv.Itoa(readers), "--workers", strconv.Itoa(workers), "--batch", strconv.Itoa(batch))
